@@ -39,3 +39,10 @@ CASES += [
     dict(id='c07-eq-renamed-flag', prop='C07', file=A, expect=None, count=4,
          old="gotBackslash", new="escapePending"),
 ]
+
+CASES += [
+    dict(id='c07-value-list-closed-per-line', prop='C07', file='src/library/prog_args/handler.cpp', expect='R4',
+         old="      iterateArguments( alp);\n   } // end while", new="      iterateArguments( alp);\n      mpLastArg = nullptr;\n   } // end while"),
+    dict(id='c07-value-list-closed-after-env', prop='C07', file='src/library/prog_args/handler.cpp', expect='R4',
+         old="   iterateArguments( alp);\n\n} // Handler::checkReadEnvVarArgs", new="   iterateArguments( alp);\n   endValueList();\n\n} // Handler::checkReadEnvVarArgs"),
+]
